@@ -2,6 +2,7 @@ CONSTANTS
   STAR = "*"
   QM = "?"
   COLON = ":"
+  Fold <- MCFold
   Dev = {"HostIgnoresPort"}
   Apps <- MCApps
   Reqs <- MCReqs
